@@ -1,6 +1,6 @@
 //! Stream shared by C20 (round trip / size) and C21 (decoding of malformed input never panics).
 //!
-//! Ops (see the wire protocol in notes): `enc <ty> <schema> <val>`, `dec <ty> <schema> <hex>`,
+//! Ops (wire protocol: /verif/notes/codec.md, section Harness): `enc <ty> <schema> <val>`, `dec <ty> <schema> <hex>`,
 //! `tovec <kind> <hex>`.
 
 use crate::Ctx;
